@@ -507,6 +507,13 @@ impl LiveActor {
         match result {
             Err(ConnectError::RemoteAbort(AbortReason::AlreadySyncing)) => {
                 debug!(?reason, "remote abort, already syncing");
+                // Usually the remote's own request is on its way and will be accepted. But if it
+                // got lost, or the remote only still considers an older session to be running,
+                // no session will ever finish for this dial: free the slot now, otherwise this
+                // peer stays marked as syncing forever.
+                if self.state.connect_declined(&namespace, peer) {
+                    self.sync_with_peer(namespace, peer, SyncReason::Resync);
+                }
             }
             res => {
                 self.on_sync_finished(
